@@ -211,7 +211,7 @@ def facts : Facts := {
   typedAllocSites := 6
   decoderSkeleton := "ccc4122215142eb0a0ebde38"
   encoderSkeleton := "5cbdaefa998ed87261c39697"
-  resolverSkeleton := "0b2d55f16e25bb059dc5dd7a"
+  resolverSkeleton := "fc893de27c26c5f74381c563"
   descTableSkeleton := "cbfebd4eaff63fd247cc0a76"
   topLevelUsesLimit := true
   createLocksRechecksBuildsPublishes := true
@@ -924,7 +924,7 @@ def facts : Facts := {
 --   return nil, mkMistyped(*i-len(tv), def, tv, tag, vt)
 --   call mkMistyped
 --   call len
---   if tag == T_i64 && vt != i64type
+--   if tag == T_i64 && vt != i64type && vt != inttype
 --   if tag != T_map => return
 --   return ret, nil
 --   if def != ""
